@@ -19,7 +19,7 @@ namespace Jinns.LossTerms
 /-- `jnp.mean` of a 1-D array. -/
 def mean (l : List Rat) : Rat := l.sum / (l.length : Rat)
 
-def sq (x : Rat) : Rat := x * x
+def sqr (x : Rat) : Rat := x * x
 
 /-- A loss weight: a float, or a 1-D array with one entry per component. -/
 inductive Weight where
@@ -35,8 +35,8 @@ def Weight.get : Weight → Nat → Rat
 /-- `jnp.sum(loss_weight * res**2, axis=-1)` for one row `res` (contract for an array weight:
     one entry per component). -/
 def wsq : Weight → List Rat → Rat
-  | .scalar a, r => (r.map fun x => a * sq x).sum
-  | .vec ws, r => (List.zipWith (fun w x => w * sq x) ws r).sum
+  | .scalar a, r => (r.map fun x => a * sqr x).sum
+  | .vec ws, r => (List.zipWith (fun w x => w * sqr x) ws r).sum
 
 def Weight.smul (c : Rat) : Weight → Weight
   | .scalar a => .scalar (c * a)
@@ -64,7 +64,7 @@ def Slice.apply {α : Type} : Slice → List α → List α
     `mean(w * sum((v_u(t0, params) - u0)**2, axis=-1))`.  `rows` holds `u(t0)` once, or once per
     row of the parameter batch when there is one (the `mean` is over those rows). -/
 def icODE (w : Rat) (rows : List (List Rat)) (u0 : List Rat) : Rat :=
-  mean (rows.map fun ut0 => w * ((sub ut0 u0).map sq).sum)
+  mean (rows.map fun ut0 => w * ((sub ut0 u0).map sqr).sum)
 
 /-- `initial_condition_apply` (PINN branch): `res = vmap(x ↦ u0(x) - u(zeros(1), x))(omega_batch)`;
     `mean(sum(w * res**2, axis=-1))`.  `uAt0 x` is `u(0, x)`. -/
@@ -79,13 +79,13 @@ def meanAll (tbl : List (List Rat)) : Rat := mean tbl.flatten
 /-- `normalization_loss_apply`, stationary PINN branch: `v_u = vmap(x ↦ u(x)[u.slice_solution])`;
     `w * mean(abs(mean(v_u(samples), axis=(-2,-1)) * L - 1)**2)` (the outer mean is over a 0-d value). -/
 def normStatio {S : Type} (w L : Rat) (sliceSol : Slice) (u : S → List Rat) (samples : List S) : Rat :=
-  w * sq (meanAll (samples.map fun s => sliceSol.apply (u s)) * L - 1)
+  w * sqr (meanAll (samples.map fun s => sliceSol.apply (u s)) * L - 1)
 
 /-- non-stationary PINN branch: `res[t, s, :] = u(t, s)[u.slice_solution]` for the time column `ts`
     of the inside batch; `w * mean_t(abs(mean(res, axis=(-2,-1)) * L - 1)**2)`. -/
 def normNonStatio {T S : Type} (w L : Rat) (sliceSol : Slice) (u : T → S → List Rat) (ts : List T)
     (samples : List S) : Rat :=
-  w * mean (ts.map fun t => sq (meanAll (samples.map fun s => sliceSol.apply (u t s)) * L - 1))
+  w * mean (ts.map fun t => sqr (meanAll (samples.map fun s => sliceSol.apply (u t s)) * L - 1))
 
 /-! ### observations -/
 
